@@ -3,7 +3,10 @@ use std::fs::File;
 use std::io::{BufWriter, Write};
 use std::marker;
 use std::path::Path;
+#[cfg(not(arroy_verif))]
 use std::sync::atomic::{AtomicBool, AtomicU32, AtomicU64, Ordering};
+#[cfg(arroy_verif)]
+use crate::verif::atomic::{AtomicBool, AtomicU32, AtomicU64, Ordering};
 
 use heed::types::Bytes;
 use heed::{BytesDecode, BytesEncode, RoTxn};
@@ -172,6 +175,8 @@ impl ConcurrentNodeIds {
 
     /// Returns a new unique ID and increase the count of IDs used.
     pub fn next(&self) -> Result<u32> {
+        #[cfg(arroy_verif)]
+        crate::verif::enter("ConcurrentNodeIds::next");
         if self.used.fetch_add(1, Ordering::Relaxed) > u32::MAX as u64 {
             Err(Error::DatabaseFull)
         } else if self.look_into_bitmap.load(Ordering::Relaxed) {
